@@ -418,4 +418,99 @@ theorem runWithIndexT_unreadable_fails (O : Oracles) (qy : Query) (hnl : NoLimit
   | panic s => simp [runWithIndex, failWith, hasFailed]
   | oracleMissing s => simp [runWithIndex, failWith, hasFailed]
 
+
+/-! ### what is lost at an unreadable line: nothing before it -/
+
+/-- a file loop left without a stop has not failed -/
+theorem runFile_nostop_ok (O : Oracles) (qy : Query) (idx : JoinIndex) (w : Bool) (fls : List FileLine) (ls : LoopState)
+    (h0 : hasFailed ls.out = false) (h : (runFile O qy idx w none fls ls).stop = false) :
+    hasFailed (runFile O qy idx w none fls ls).out = false := by
+  induction fls generalizing ls with
+  | nil => exact h0
+  | cons fl rest ih =>
+    have hn : ((none : Option Nat) == some ls.consumed) = false := rfl
+    by_cases hr : fl.readable = true
+    · cases hx : executeLine O qy idx w ls.es fl.line with
+      | ok p =>
+        obtain ⟨es1, lo⟩ := p
+        rw [runFile_cons_ok O qy idx w fl rest ls es1 lo hr hx] at h ⊢
+        by_cases hl : lo.reachedLimit = true
+        · simp [hl] at h
+        · simp only [hl, Bool.false_eq_true, if_false] at h ⊢
+          exact ih _ (by simpa [advance, hasFailed] using h0) h
+      | error k => simp [runFile, hn, hr, hx] at h
+      | panic k => simp [runFile, hn, hr, hx] at h
+      | oracleMissing k => simp [runFile, hn, hr, hx] at h
+    · have hr' : fl.readable = false := by simpa using hr
+      simp [runFile, hn, hr'] at h
+
+/-- the traced state in which an unreadable line leaves the loop -/
+def readErrorT (s : TraceState) : TraceState :=
+  { s with ls := { s.ls with out := { s.ls.out with error := some .failReadFile }, stop := true } }
+
+/-- **up to an unreadable line the loop is the loop over the lines before it**: it ends where that loop ended if that
+loop stopped (failure, LIMIT), and otherwise in its final state with `FailReadFile` reported — no print call, no
+engine state, no count of the lines before is lost, and nothing after is looked at -/
+theorem runFileT_unreadable_after (O : Oracles) (qy : Query) (idx : JoinIndex) (w : Bool) (a b : List FileLine) (bad : FileLine)
+    (hbad : bad.readable = false) (s : TraceState) (hst : s.ls.stop = false) :
+    runFileT O qy idx w (a ++ bad :: b) s =
+      if (runFileT O qy idx w a s).ls.stop then runFileT O qy idx w a s else readErrorT (runFileT O qy idx w a s) := by
+  rw [runFileT_append O qy idx w a (bad :: b) s hst]
+  split
+  · rfl
+  · simp only [runFileT, hbad, Bool.not_false, if_true, readErrorT]
+
+theorem runFilesT_single (O : Oracles) (qy : Query) (idx : JoinIndex) (w : Bool) (x : List FileLine) (s : TraceState) :
+    runFilesT O qy idx w [x] s = if s.ls.stop || reachedLimit qy s.ls.es then s else runFileT O qy idx w x s := by
+  simp only [runFilesT]
+  split
+  · rfl
+  · split <;> rfl
+
+/-- the traced run of a non-aggregate statement over one file: the loop's out and calls -/
+theorem runWithIndexT_select_single (O : Oracles) (qy : Query) (q : SelectStmt) (hq : qy.stmt = .select q) (idx : JoinIndex)
+    (x : List FileLine) :
+    runWithIndexT O qy (.ok idx) [x] =
+      { out := (if reachedLimit qy ({} : EngineState) then ({} : TraceState) else runFileT O qy idx true x {}).ls.out,
+        calls := (if reachedLimit qy ({} : EngineState) then ({} : TraceState) else runFileT O qy idx true x {}).calls } := by
+  unfold runWithIndexT
+  simp only [hq, Bool.not_false, runFilesT_single]
+  have : (({} : TraceState).ls.stop || reachedLimit qy ({} : TraceState).ls.es) = reachedLimit qy ({} : EngineState) := by
+    show (false || _) = _
+    rw [Bool.false_or]
+  rw [this]
+  split <;> simp only [ite_self]
+
+/-- **an unreadable line in the input of a non-aggregate statement**: the traced run over input whose lines are
+`A ++ unreadable :: rest` is the run over `A` — if that one had already ended (an error, LIMIT reached, the join
+set-up failed) — or else the run over `A`, which did not fail, with `FailReadFile` as its error: the same print calls,
+the same count -/
+theorem runWithIndexT_read_error (O : Oracles) (qy : Query) (q : SelectStmt) (hq : qy.stmt = .select q)
+    (idxO : Outcome JoinIndex) (fs fsA : List (List FileLine)) (bad : FileLine) (rest : List FileLine)
+    (hbad : bad.readable = false) (hsplit : fs.flatten = fsA.flatten ++ bad :: rest) :
+    runWithIndexT O qy idxO fs = runWithIndexT O qy idxO fsA ∨
+    (hasFailed (runWithIndexT O qy idxO fsA).out = false ∧
+      runWithIndexT O qy idxO fs =
+        { out := { (runWithIndexT O qy idxO fsA).out with error := some .failReadFile },
+          calls := (runWithIndexT O qy idxO fsA).calls }) := by
+  cases idxO with
+  | ok idx =>
+    rw [runWithIndexT_flatten O qy (.ok idx) fs, runWithIndexT_flatten O qy (.ok idx) fsA, hsplit,
+      runWithIndexT_select_single O qy q hq, runWithIndexT_select_single O qy q hq]
+    by_cases hrl : reachedLimit qy ({} : EngineState) = true
+    · left; simp only [hrl, if_true]
+    · simp only [hrl, Bool.false_eq_true, if_false]
+      rw [runFileT_unreadable_after O qy idx true fsA.flatten rest bad hbad {} rfl]
+      by_cases hs : (runFileT O qy idx true fsA.flatten {}).ls.stop = true
+      · left; simp only [hs, if_true]
+      · right
+        simp only [hs, Bool.false_eq_true, if_false]
+        refine ⟨?_, rfl⟩
+        have hs' : (runFileT O qy idx true fsA.flatten {}).ls.stop = false := by simpa using hs
+        rw [runFileT_ls] at hs' ⊢
+        exact runFile_nostop_ok O qy idx true fsA.flatten _ rfl hs'
+  | error k => left; rfl
+  | panic s => left; rfl
+  | oracleMissing s => left; rfl
+
 end Sqlgrep
